@@ -111,7 +111,8 @@ impl CoreDID {
   ///
   /// Returns `Err` if the input is not a valid [`DID`].
   pub fn parse(input: impl AsRef<str>) -> Result<Self, Error> {
-    BaseDIDUrl::parse(input).map(Self).map_err(Error::from)
+    let base_did_url: BaseDIDUrl = BaseDIDUrl::parse(input).map_err(Error::from)?;
+    Self::try_from(base_did_url)
   }
 
   /// Set the method name of the [`DID`].
@@ -192,6 +193,7 @@ impl TryFrom<BaseDIDUrl> for CoreDID {
   type Error = Error;
 
   fn try_from(base_did_url: BaseDIDUrl) -> Result<Self, Self::Error> {
+    Self::check_validity(&base_did_url)?;
     Ok(Self(base_did_url))
   }
 }
